@@ -39,7 +39,10 @@ CONSTANTS
   Sizer,       \* "items" | "bytes"
   MaxSize, MinSize,
   CanFail,     \* may the export function fail
-  Oversized    \* "alone" | "hang"
+  Oversized,   \* "alone" | "hang"        (see BatcherSplit.tla)
+  AttachFirst  \* "ifgrew": the callback of a request is attached to the first part of a merge only when that
+               \*           part holds some of its data (the statement; the repaired code)
+               \* "always": it is attached unconditionally (the pinned code)
 
 VARIABLES
   tosend,     \* requests not yet handed in
@@ -105,15 +108,20 @@ Consume ==
         /\ IF ~ms.ok
              THEN /\ hung' = TRUE
                   /\ UNCHANGED <<cur, cflush, wrapped, refc>>
-             ELSE LET n == Len(lst) IN
+             ELSE LET n == Len(lst)
+                      \* does the first part hold anything of r?  (It does not when r's first item did not
+                      \* fit next to the current batch.)  The pinned code attaches r's callback to it anyway.
+                      inFirst == AttachFirst = "always" \/ cur.none \/ n = 1 \/ Len(lst[1]) > Len(cur.items)
+                      flushes == IF inFirst THEN n ELSE n - 1
+                  IN
                   /\ hung' = FALSE
-                  /\ wrapped' = [wrapped EXCEPT ![r] = n > 1]
-                  /\ refc' = [refc EXCEPT ![r] = IF n > 1 THEN n ELSE 0]
+                  /\ wrapped' = [wrapped EXCEPT ![r] = flushes > 1]
+                  /\ refc' = [refc EXCEPT ![r] = IF flushes > 1 THEN flushes ELSE 0]
                   /\ IF cur.none
                        THEN LET keepLast == SizeOf(lst[n]) < MinSize IN
                             /\ cur' = IF keepLast THEN B(lst[n], <<r>>) ELSE NoBatch
                             /\ cflush' = [i \in 1..(IF keepLast THEN n - 1 ELSE n) |-> B(lst[i], <<r>>)]
-                       ELSE LET first      == B(lst[1], Append(cur.dones, r))
+                       ELSE LET first      == B(lst[1], IF inFirst THEN Append(cur.dones, r) ELSE cur.dones)
                                 flushFirst == n > 1 \/ SizeOf(lst[1]) >= MinSize
                                 rest       == SubSeq(lst, 2, n)
                                 keepLast   == rest # <<>> /\ SizeOf(rest[Len(rest)]) < MinSize
@@ -128,7 +136,7 @@ FlushStart(who) ==
   /\ inflight = <<>>
   /\ LET lst == IF who = "consumer" THEN cflush ELSE tflush IN
        /\ lst # <<>>
-       /\ batches' = Append(batches, [items |-> Strip(Head(lst).items), size |-> SizeOf(Head(lst).items),
+       /\ batches' = Append(batches, [items |-> Strip(Head(lst).items), reqs |-> {}, size |-> SizeOf(Head(lst).items),
                                       state |-> "open", ok |-> TRUE])
        /\ inflight' = <<[k |-> Len(batches) + 1, dones |-> Head(lst).dones]>>
        /\ IF who = "consumer" THEN cflush' = Tail(cflush) /\ UNCHANGED tflush
